@@ -486,3 +486,10 @@ package base
 //@ # configuration declares in some other frame never makes a name of the program "defined"
 //@ func ti/base.IsClassDefined
 //@   ensures[C20] !has(DefinedClassTable, mk("ti/base.DefinedClass", "Builtin", class)) && forallx(i, 0 <= i && i < len(frames) ==> !has(DefinedClassTable, mk("ti/base.DefinedClass", frames[i], class)) && !has(DefinedClassTable, mk("ti/base.DefinedClass", "Builtin::" + frames[i], class))) ==> !result
+
+//@ func ti/base.GetClassMethodT
+//@   sitesonly
+//@   inline 2 1
+//@   # C07: a class-method lookup consults class-method keys only (an instance method of Object does
+//@   # not make `Klass.inspect` a defined class method)
+//@   callsite[C07] methodTFrameKey false
